@@ -6,27 +6,19 @@ From LT Require Import gen_Consts Zbase CoinFlipArith CoinFlipModel CoinFlipLemm
 Import ListNotations.
 Local Open Scope Z_scope.
 
-(* the library's Schnorr verifier returns exactly the verdict of the textbook equation c = H(m, g^s y^-c),
-   for every s that fits the precomputed table (|s| < 2^bitlen(q); includes s in {0, 1, q-1, q}) *)
+(* the library's Schnorr verifier returns exactly the textbook verdict (s in [0, q) and c = H(m, g^s y^-c))
+   for ALL integers m, c, s (since fix c546d31 the range of s is tested before the fixed-base power) *)
 Theorem C16_nts_verify_iff_textbook : forall (H : list Z -> Z) G, sgroup G -> forall y m c s,
-  in_sub (gp G) (gq G) y -> bitlen (Z.abs s) <= bitlen (gq G) ->
+  in_sub (gp G) (gq G) y ->
   nts_verify H G y m c s = Some (schnorr_textbook H G y m c s).
 Proof. exact nts_verify_iff_textbook. Qed.
 Print Assumptions C16_nts_verify_iff_textbook.
 
-(* ... and NOT beyond: for a longer s the fixed-base power evaluates to 0 and (H [m; 0], s) is accepted for
-   every message m and every public key y -- the full equivalence is refuted on the model of the current code
-   (finding nts-verify-oversize-s; the textbook equation would need H [m; 0] = H [m; g^s y^-c] with g^s y^-c <> 0) *)
-Theorem C16_nts_verify_iff_textbook_refuted : forall (H : list Z -> Z) G, sgroup G -> forall y m s,
-  in_sub (gp G) (gq G) y -> 0 < s -> bitlen (gq G) < bitlen s <= TMCG_MAX_FPOWM_T ->
-  nts_verify H G y m (H [m; 0]) s = Some true.
-Proof. exact nts_verify_oversize_accepts. Qed.
-Print Assumptions C16_nts_verify_iff_textbook_refuted.
-
-Theorem C16_nts_verify_huge_throws : forall (H : list Z -> Z) G y m c s,
-  TMCG_MAX_FPOWM_T < bitlen (Z.abs s) -> nts_verify H G y m c s = None.
-Proof. exact nts_verify_huge_throws. Qed.
-Print Assumptions C16_nts_verify_huge_throws.
+(* in particular every s outside [0, q) is refused, whatever c is: the former forgery (H [m; 0], 2^|q|), s + q, negative s *)
+Theorem C16_nts_verify_out_of_range : forall (H : list Z -> Z) G y m c s,
+  s < 0 \/ gq G <= s -> nts_verify H G y m c s = Some false.
+Proof. exact nts_verify_out_of_range. Qed.
+Print Assumptions C16_nts_verify_out_of_range.
 
 (* the library's DSA verifier returns exactly the textbook verdict (0 < r, s < q and the FIPS 186 equation)
    for ALL integers m, r, s, y *)
@@ -74,7 +66,7 @@ Definition Hsum (l : list Z) : Z := fold_right Z.add 0 l.
 (* x = 3, y = 8; k = 5, r = 2^5 mod 23 = 9; m = 4, c = 13, s = (5 + 13*3) mod 11 = 0 *)
 Example C16_nonvacuous_schnorr : nts_verify Hsum G23 8 4 13 0 = Some true /\ schnorr_textbook Hsum G23 8 4 13 0 = true.
 Proof. split; vm_compute; reflexivity. Qed.
-Example C16_nonvacuous_forgery : nts_verify Hsum G23 8 4 (Hsum [4; 0]) 16 = Some true /\ schnorr_textbook Hsum G23 8 4 (Hsum [4; 0]) 16 = false.
+Example C16_nonvacuous_former_forgery : nts_verify Hsum G23 8 4 (Hsum [4; 0]) 16 = Some false /\ schnorr_textbook Hsum G23 8 4 (Hsum [4; 0]) 16 = false.
 Proof. split; vm_compute; reflexivity. Qed.
 (* DSA: x = 3, y = 8, k = 4, kinv = 3, r = (2^3 mod 23) mod 11 = 8, m = 5, s = 4 * (5 + 3*8) mod 11 = 6 *)
 Example C16_nonvacuous_dsa : dss_verify G23 8 5 8 6 = Some true /\ dsa_textbook G23 8 5 8 6 = true.
